@@ -409,6 +409,7 @@ void absorb(BatchStats& bs, size_t index, const RunResult& r, bool keep_digest)
    if (bs.probes.size() < r.probes.size()) bs.probes.resize(r.probes.size(), 0);
    for (size_t i = 0; i < r.probes.size(); ++i) bs.probes[i] += r.probes[i];
    if (r.relevant) { ++bs.relevant; bs.digests.insert(r.digest); }
+   else if (r.crashed) bs.digests.insert(mix64(0xdeadull ^ uint64_t(index)));     // a run that died is a distinct execution of its own plan
    if (keep_digest) bs.digest_by_index[index] = r.digest;
    switch (r.verdict.kind) {
    case Verdict::Ok: ++bs.ok; break;
@@ -696,6 +697,7 @@ int cmd_check(const Options& o0, const char* argv0)
    mkdirs(o.replay_dir);
    size_t triaged = 0;
    std::set<std::string> reported_classes;
+   std::vector<std::string> gate_failures;
    for (auto& kv : by_class) {
       if (triaged >= 8) break;
       ++triaged;
@@ -704,17 +706,20 @@ int cmd_check(const Options& o0, const char* argv0)
       // Gate 1: the original seed, run twice more in fresh children, gives the same class and digest.
       RunResult a = run_in_child(sc, plan, o.tier);
       RunResult b = run_in_child(sc, plan, o.tier);
-      if (a.verdict.kind != Verdict::Violation or b.verdict.kind != Verdict::Violation
-          or a.verdict.cls != c.verdict.cls or b.verdict.cls != c.verdict.cls
-          or (not a.crashed and not b.crashed and a.digest != b.digest)) {
-         rep.harness_problem = true;
-         rep.harness_msg = "violation candidate " + c.verdict.cls + " at index " + std::to_string(c.index) +
-            " did not reproduce identically (got " + a.verdict.cls + " / " + b.verdict.cls + ")";
+      std::string want = c.verdict.cls;
+      bool reproducible = a.verdict.kind == Verdict::Violation and b.verdict.kind == Verdict::Violation and a.verdict.cls == b.verdict.cls
+                          and (a.crashed or b.crashed or a.digest == b.digest);
+      // A process death is classified from the sanitizer's first line, which for a wild pointer can differ between a
+      // long-lived worker and a fresh child (which sanitizer trips first); the fresh children are authoritative.
+      if (reproducible and a.verdict.cls != want and c.crash and a.crashed) want = a.verdict.cls;
+      if (not reproducible or a.verdict.cls != want) {
+         gate_failures.push_back("violation candidate " + c.verdict.cls + " at index " + std::to_string(c.index) +
+            " did not reproduce identically (got " + a.verdict.cls + " / " + b.verdict.cls + ")");
          continue;
       }
+      if (by_class.count(want) and want != kv.first and reported_classes.count(want)) continue;   // already reported under its canonical class
       // Minimise while the same violation class persists.
       ShrinkStats st;
-      const std::string want = c.verdict.cls;
       Plan small = shrink_plan(plan, [&](const Plan& cand) {
          RunResult r = run_in_child(sc, cand, o.tier);
          return r.verdict.kind == Verdict::Violation and r.verdict.cls == want;
@@ -732,8 +737,7 @@ int cmd_check(const Options& o0, const char* argv0)
       // Gate 2: fresh process replay reproduces the same class.
       int rc = fresh_replay(argv0, path);
       if (rc != 1) {
-         rep.harness_problem = true;
-         rep.harness_msg = "fresh-process replay of " + path + " exited " + std::to_string(rc) + " (expected 1)";
+         gate_failures.push_back("fresh-process replay of " + path + " exited " + std::to_string(rc) + " (expected 1)");
          continue;
       }
       std::string abs = path;
@@ -749,6 +753,14 @@ int cmd_check(const Options& o0, const char* argv0)
          std::printf("  class %s\n    %s\n    minimised %zu -> %zu ops in %d tests\n", want.c_str(), fin.verdict.detail.c_str(), st.from, small.ops.size(), st.tests);
       }
       reported_classes.insert(want);
+   }
+
+   // A candidate that cannot be reproduced is not believed.  It voids the whole check only when nothing else was
+   // reproduced either: a violation that replays exactly stands on its own.
+   for (auto& g : gate_failures) std::printf("  note: %s\n", g.c_str());
+   if (not gate_failures.empty() and rep.violation_lines.empty() and rep.known_lines.empty()) {
+      rep.harness_problem = true;
+      rep.harness_msg = gate_failures.front();
    }
 
    // -- re-confirm known findings that carry their own replay plan (generators avoid these triggers)
